@@ -120,6 +120,13 @@ func main() {
 		}
 		part.ItemsDone++
 	}
+	if p.Custom != nil && !st.Capped {
+		cc := &scen.CustomCtx{Tier: *tier, Shard: *shard, NShards: *nshards, Deadline: dl, Stats: st, Extra: map[string]any{}}
+		p.Custom(cc)
+		if len(cc.Extra) > 0 {
+			part.Extra = cc.Extra
+		}
+	}
 	part.Executions, part.States, part.Transitions, part.Traces = st.Executions, st.States, st.Transitions, st.Traces
 	part.Nontrivial, part.MaxDepth, part.MaxDevsUsed = st.Nontrivial, st.MaxDepth, st.MaxDevsUsed
 	part.Capped, part.CapReason, part.Rechecks = st.Capped, st.CapReason, st.Rechecks
@@ -130,7 +137,12 @@ func main() {
 	part.Samples = st.Samples
 	part.WallS = time.Since(start).Seconds()
 	if p.Extra != nil && *shard == 0 {
-		part.Extra = p.Extra(*tier)
+		for k, v := range p.Extra(*tier) {
+			if part.Extra == nil {
+				part.Extra = map[string]any{}
+			}
+			part.Extra[k] = v
+		}
 	}
 	b, err := json.Marshal(part)
 	if err != nil {
